@@ -579,4 +579,14 @@ def all_sites(crate):
     for s in out:
         # only a helper that is handed the collection lifts its site to the function that fetched the collection
         s.owner = lift(s.fn.root) if s.from_param else s.fn.root
+        # where the site would have been attributed before its function was split off its single caller
+        alts = []
+        cur = s.owner
+        for _ in range(2):
+            cs = callers.get(cur, set()) - {cur}
+            if len(cs) != 1:
+                break
+            (cur,) = tuple(cs)
+            alts.append(cur)
+        s.owner_alts = alts
     return out
